@@ -138,6 +138,11 @@ def main():
             for what in ("short1", "short700"):
                 jobs.append((big, 0))
                 shortw[len(jobs)] = (k, what)
+        # the same long stream with every network read cut to just below, at and around the size of the daemon's input buffer
+        # (1024) and its halves: the input routine moves what it has read to the end of its buffer, by one byte or by many
+        for cap in (1023, 1022, 1021, 1000, 1024, 1025, 513, 512, 511, 255, 100, 31):
+            jobs.append((big, cap))
+            jobs.append((big[:-3] + [13, 46, 13, 10, 46, 13, 10], cap))
         jobs = [(i + 1, s, c) for i, (s, c) in enumerate(jobs)]
 
     # ---- round trip through this package's own client: messages (lines over the alphabet, bare CRs
